@@ -205,4 +205,144 @@ theorem ginv_dropSeries {st : State} {live : List Nat} (h : GInv st live) (id : 
           · exact Or.inr h
           · exact Or.inl h)
 
+theorem ginvx_mono {exc exc' : String → Prop} {pend : List Nat} {st : State} {live : List Nat}
+    (hm : ∀ n, exc n → exc' n) (h : GInvX exc pend st live) : GInvX exc' pend st live :=
+  { h with pinv := fun i p hp => pinv_mono hm (h.pinv i p hp) }
+
+theorem dropSeriesIndex_sf (st : State) (s : SeriesInfo) : (dropSeriesIndex st s).sf = st.sf := rfl
+theorem dropSeriesIndex_conf (st : State) (s : SeriesInfo) :
+    (dropSeriesIndex st s).configured = st.configured := rfl
+
+/-- a run of `Index.DropSeries` over series of one measurement. -/
+theorem ginvx_dropMany (name : String) (ss : List SeriesInfo) :
+    ∀ (pend : List Nat) (st : State) (live : List Nat),
+      GInvX (fun n => n = name) pend st live → st.configured = true →
+      (∀ s ∈ ss, st.sf.find s.id = some s ∧ s.name = name) →
+      ∃ pend', (∀ x, x ∈ pend' ↔ x ∈ pend ∨ ∃ s ∈ ss, s.id = x) ∧
+        GInvX (fun n => n = name) pend' (ss.foldl dropSeriesIndex st)
+          (ss.foldl (fun l s => sdel l s.id) live) ∧
+        (ss.foldl dropSeriesIndex st).sf = st.sf ∧ (ss.foldl dropSeriesIndex st).configured = true := by
+  induction ss with
+  | nil =>
+    intro pend st live h hc _
+    exact ⟨pend, by simp, h, rfl, hc⟩
+  | cons s rest ih =>
+    intro pend st live h hc hss
+    obtain ⟨hfs, hns⟩ := hss s (by simp)
+    have h1 := ginvx_dropSeriesIndex h s hfs hc
+    have h1' : GInvX (fun n => n = name) (s.id :: pend) (dropSeriesIndex st s) (sdel live s.id) :=
+      ginvx_mono (fun n hn => by rcases hn with hn | hn; exact hn; rw [hn, hns]) h1
+    obtain ⟨pend', hp', hg, hsf, hcf⟩ := ih (s.id :: pend) (dropSeriesIndex st s) (sdel live s.id) h1'
+      (by rw [dropSeriesIndex_conf]; exact hc)
+      (fun t ht => by rw [dropSeriesIndex_sf]; exact hss t (List.mem_cons_of_mem _ ht))
+    refine ⟨pend', ?_, hg, by simp only [List.foldl_cons]; rw [hsf, dropSeriesIndex_sf], hcf⟩
+    intro x
+    rw [hp' x]
+    simp only [List.mem_cons, exists_eq_or_imp]
+    constructor
+    · rintro ((h | h) | h)
+      · exact Or.inr (Or.inl h.symm)
+      · exact Or.inl h
+      · exact Or.inr (Or.inr h)
+    · rintro (h | h | h)
+      · exact Or.inl (Or.inr h)
+      · exact Or.inl (Or.inl h.symm)
+      · exact Or.inr h
+
+theorem mem_foldl_sdel (ss : List SeriesInfo) (live : List Nat) (x : Nat) :
+    x ∈ ss.foldl (fun l s => sdel l s.id) live ↔ x ∈ live ∧ ∀ s ∈ ss, s.id ≠ x := by
+  induction ss generalizing live with
+  | nil => simp
+  | cons s rest ih =>
+    simp only [List.foldl_cons, ih, mem_sdel, List.mem_cons, forall_eq_or_imp]
+    constructor
+    · rintro ⟨⟨h1, h2⟩, h3⟩; exact ⟨h1, fun e => h2 e.symm, h3⟩
+    · rintro ⟨h1, h2, h3⟩; exact ⟨⟨h1, fun e => h2 e.symm⟩, h3⟩
+
+theorem mem_foldl_sadd (ss : List SeriesInfo) (d : List Nat) (x : Nat) :
+    x ∈ ss.foldl (fun d s => sadd d s.id) d ↔ x ∈ d ∨ ∃ s ∈ ss, s.id = x := by
+  induction ss generalizing d with
+  | nil => simp
+  | cons s rest ih =>
+    simp only [List.foldl_cons, ih, mem_sadd, List.mem_cons, exists_eq_or_imp]
+    constructor
+    · rintro ((h | h) | h)
+      · exact Or.inr (Or.inl h.symm)
+      · exact Or.inl h
+      · exact Or.inr (Or.inr h)
+    · rintro (h | h | h)
+      · exact Or.inl (Or.inr h)
+      · exact Or.inl (Or.inl h.symm)
+      · exact Or.inr h
+
+/-- the series the harness's `xm` drops: the tracked ones of the measurement. -/
+def victims (st : State) (name : String) : List SeriesInfo :=
+  (sortNat st.tracked).filterMap (fun id =>
+    (st.sf.find id).bind (fun s => if s.name = name then some s else none))
+
+theorem mem_victims {st : State} {name : String} {s : SeriesInfo} :
+    s ∈ victims st name ↔ s.id ∈ st.tracked ∧ st.sf.find s.id = some s ∧ s.name = name := by
+  unfold victims
+  simp only [List.mem_filterMap, mem_sortNat]
+  constructor
+  · rintro ⟨id, hid, hb⟩
+    cases hf : st.sf.find id with
+    | none => simp [hf] at hb
+    | some t =>
+      simp only [hf, Option.bind_some] at hb
+      split at hb
+      · next hn =>
+        simp only [Option.some.injEq] at hb
+        subst hb
+        have := (find_some_mem hf).2
+        rw [this]
+        exact ⟨hid, hf, hn⟩
+      · simp at hb
+  · rintro ⟨h1, h2, h3⟩
+    exact ⟨s.id, h1, by simp [h2, h3]⟩
+
+theorem ginv_dropMeasurement {st : State} {live : List Nat} (h : GInv st live) (name : String) :
+    GInv (step st (.dropMeasurement name)).1
+      ((victims st name).foldl (fun l s => sdel l s.id) live) := by
+  have hstep : (step st (.dropMeasurement name)).1 =
+      (let st1 : State := { st with parts := markOpStart st.parts, configured := true }
+       let st2 := (victims st name).foldl dropSeriesIndex st1
+       let st3 := dropMeasurementIfNoSeries st2 name
+       { st3 with sf := { st3.sf with deleted := (victims st name).foldl (fun d s => sadd d s.id) st3.sf.deleted } }) := rfl
+  rw [hstep]
+  simp only
+  have h1 := ginvx_mark h
+  have h1' : GInvX (fun n => n = name) []
+      ({ st with parts := markOpStart st.parts, configured := true } : State) live :=
+    ginvx_mono (fun n hn => absurd hn (by simp)) h1
+  obtain ⟨pend', hp', hg, hsf, hcf⟩ := ginvx_dropMany name (victims st name) [] _ live h1' rfl
+    (fun s hs => by
+      obtain ⟨_, h2, h3⟩ := mem_victims.mp hs
+      exact ⟨h2, h3⟩)
+  have hg' : GInvX (fun n => False ∨ n = name) pend'
+      ((victims st name).foldl dropSeriesIndex { st with parts := markOpStart st.parts, configured := true })
+      ((victims st name).foldl (fun l s => sdel l s.id) live) :=
+    ginvx_mono (fun n hn => Or.inr hn) hg
+  have h3 := ginvx_dropMeasIfNoSeries name hg' hcf
+  have hsf3 : (dropMeasurementIfNoSeries
+      ((victims st name).foldl dropSeriesIndex { st with parts := markOpStart st.parts, configured := true })
+      name).sf = st.sf := by
+    have : ∀ st' : State, (dropMeasurementIfNoSeries st' name).sf = st'.sf := by
+      intro st'; unfold dropMeasurementIfNoSeries; split <;> rfl
+    rw [this, hsf]
+  refine ginvx_sfdelete pend' h3 ?_ ?_ _ ?_
+  · intro x hx
+    rw [hsf3]
+    rcases (hp' x).mp hx with h0 | ⟨s, hs, rfl⟩
+    · simp at h0
+    · obtain ⟨_, h2, _⟩ := mem_victims.mp hs
+      simp [h2]
+  · intro x hx hl
+    rcases (hp' x).mp hx with h0 | ⟨s, hs, rfl⟩
+    · simp at h0
+    · exact ((mem_foldl_sdel _ _ _).mp hl).2 s hs rfl
+  · intro x
+    rw [mem_foldl_sadd, hp' x]
+    simp
+
 end Influx.Model.TSI
